@@ -184,8 +184,14 @@ def history3(cfg: int, op0: int, op1: int, op2: int, dv: int, pd: bool, kv: int,
 
 # ---------------------------------------------------------------------------------------------------------
 def _mk_interfaces():
+    @dataset.nocache(dispatch="LEGACY_KEY")
+    def legacy_format() -> str:
+        return "legacy-default"
+
     @interface("MODE")
     class Store:
+        fmt = legacy_format                # a pre-existing dataset that already carries a dispatch of its own
+
         reader: str                        # abstract member
 
         @staticmethod
@@ -206,7 +212,7 @@ def _mk_interfaces():
 
 
 def _members(Store, Audit):
-    return [("Store.reader", Store.reader), ("Store.writer", Store.writer), ("Store.label", Store.label),
+    return [("Store.fmt", Store.fmt), ("Store.reader", Store.reader), ("Store.writer", Store.writer), ("Store.label", Store.label),
             ("Audit.sink", Audit.sink), ("Audit.reader", Audit.reader)]
 
 
@@ -235,7 +241,7 @@ BAD = {
 @harness("C07", lemma="interface", cubes={"bad": [0, 1, 2, 3], "order": [0, 1], "fm": [1, 2, 3]},
          example=dict(bad=0, order=0, fm=1, mode=7, pm=True, p=3), timeout=300,
          bounds="two interfaces on one dispatch option (abstract member, member with default, constant member, a member name shared "
-                "by both); good implementations with single and list aliases and a multi-interface implementation; 4 kinds of bad "
+                "by both, a member that is a pre-existing dataset with a dispatch of its own); good implementations with single and list aliases and a multi-interface implementation; 4 kinds of bad "
                 "implementation, defined before or after the good ones; dispatch value unbounded int or absent",
          what="a bad implementation raises TypeError when defined and changes no member's behaviour for any dispatch value; under one "
               "options dictionary all members of an interface resolve to the same alias; members without an override use the "
@@ -249,6 +255,7 @@ def interface_dispatch(bad: int, order: int, fm: int, mode: int, pm: bool, p: in
             class S1:
                 reader = "s1-reader"
                 label = "s1"
+                fmt = "s1-fmt"
 
             @implements(Store, Audit, alias=[2, 3])
             class Both:
@@ -315,14 +322,15 @@ def interface_dispatch(bad: int, order: int, fm: int, mode: int, pm: bool, p: in
     final = dict(_snapshot(Store, Audit, o))
     if pm and mode == 1:
         want = {"Store.reader": "s1-reader", "Store.writer": ("writer-default", p), "Store.label": "s1",
-                "Audit.reader": "audit-reader-default"}
+                "Audit.reader": "audit-reader-default", "Store.fmt": "s1-fmt"}
         if final["Audit.sink"][0] == "ok":
             return 0
     elif pm and (mode == 2 or mode == 3):
         want = {"Store.reader": "both-reader", "Store.writer": ("both-writer", p), "Store.label": "store",
-                "Audit.sink": p, "Audit.reader": "both-reader"}
+                "Audit.sink": p, "Audit.reader": "both-reader", "Store.fmt": "legacy-default"}
     else:
-        want = {"Store.writer": ("writer-default", p), "Store.label": "store", "Audit.reader": "audit-reader-default"}
+        want = {"Store.writer": ("writer-default", p), "Store.label": "store", "Audit.reader": "audit-reader-default",
+                "Store.fmt": "legacy-default"}
         if final["Store.reader"][0] == "ok" or final["Audit.sink"][0] == "ok":
             return 0          # abstract members fail when the alias is unregistered / undeterminable
     for k, v in want.items():
